@@ -309,12 +309,21 @@ pub fn run(cfg: &RunCfg, t0: Instant) -> i32 {
             let shards = cfg.pick(16, 64);
             let n: usize = std::env::var("VERIF_N").ok().and_then(|s| s.parse().ok()).unwrap_or(cfg.pick(1_500, 40_000));
             let mut rep = crate::run_shards(cfg, shards, |s| c19::shard(cfg, s, n));
+            // the deployed path: executed stableswap hops and Simulation queries of W-pool
+            let dshards = cfg.pick(2, 16);
+            let dn = cfg.pick(1_500, 8_000);
+            let drep = crate::run_shards(cfg, dshards, |s| {
+                pool_shard(cfg, s, dn, vec![Box::new(c19::Deployed::new(cfg.seed * 19 + s as u64))], &|g, _| {
+                    g.weights = [40, 20, 10, 8, 8, 6, 1, 1, 2];
+                })
+            });
+            rep.merge(drep);
             rep.floor("quote_accuracy", 10_000);
             rep.floor("d_accuracy", 3_000);
             rep.floor("never_exceeds_reserve", 10_000);
             rep.floor("fails_cleanly", 100);
             fin(rep, cfg, "exploration",
-                "W-kernel: the production functions compute_swap (swap/quote path) and compute_d_with_pool_info (mint path) called on generated pool states: 2-4 assets, decimals from {6,8,12,18} and extremes {0,1,2}, amplification 1..1e6 (log-uniform + the deployed values), reserves 1 unit..1e30 with skew up to 1000:1, offers 1 unit..3x the reserve, zero and non-zero fee structures; each quote's gross output is compared with the exact big-integer solution of the Curve invariant (band: 2 ask units + exact value of 2 offered units), each mint-path D with the exact root (band 2); errors/aborts are counted per cause; distinct = (#assets, decimals tuple, magnitudes of amp/offer/reserve, direction)",
+                "W-kernel + deployed path (every executed stableswap hop and one Simulation query per step of a W-pool run are judged by the same oracle). W-kernel: the production functions compute_swap (swap/quote path) and compute_d_with_pool_info (mint path) called on generated pool states: 2-4 assets, decimals from {6,8,12,18} and extremes {0,1,2}, amplification 1..1e6 (log-uniform + the deployed values), reserves 1 unit..1e30 with skew up to 1000:1, offers 1 unit..3x the reserve, zero and non-zero fee structures; each quote's gross output is compared with the exact big-integer solution of the Curve invariant (band: 2 ask units + exact value of 2 offered units), each mint-path D with the exact root (band 2); errors/aborts are counted per cause; distinct = (#assets, decimals tuple, magnitudes of amp/offer/reserve, direction)",
                 &[ASSUME_BOUNDS, "functions are called natively at their pub boundary (same code the Simulation query and the deposit path execute)", "exact reference resolved to 1e-6 of a normalised smallest unit"],
                 t0,
                 json!({"shards": shards, "pools_per_shard": n}),
@@ -393,9 +402,9 @@ pub fn run(cfg: &RunCfg, t0: Instant) -> i32 {
             }));
             rep.floor("query_equals_claim", 600);
             rep.floor("share_exact", 200);
-            rep.floor("schedule_independence", 10);
+            rep.floor("schedule_independence", 8);
             fin(rep, cfg, "exploration",
-                "W-farm (claim-heavy mix, users holding several LP tokens, several farms per LP token): before every claim the Rewards query is evaluated on the forked pre-state and compared with the claim's bank delta; every payment is compared with the ledger's sum over farm-epochs of floor(emission x user weight / contract total weight) (never more; less by under one unit per farm-epoch); every 120th step a frozen future (2-7 epochs, other users opening/topping up positions) is replayed from one snapshot under three claim schedules for one user (every epoch / once at the end / random split with until_epoch) and cumulative payouts per denom, and every other user's pending rewards, must coincide; distinct = (span, #denoms, cursor, until given)",
+                "W-farm (claim-heavy mix, users holding several LP tokens, several farms per LP token): before every claim the Rewards query is evaluated on the forked pre-state and compared with the claim's bank delta; every payment is compared with the ledger's sum over farm-epochs of floor(emission x user weight / contract total weight) (never more; less by under one unit per farm-epoch); every 50th step a frozen future (2-7 epochs, other users opening/topping up positions) is replayed from one snapshot under three claim schedules for one user (every epoch / once at the end / random split with until_epoch) and cumulative payouts per denom, and every other user's pending rewards, must coincide; distinct = (span, #denoms, cursor, until given)",
                 &[ASSUME_CHAIN, ASSUME_BOUNDS],
                 t0,
                 json!({"shards": shards, "ops_per_shard": n}),
